@@ -1,6 +1,6 @@
 """C11 — multithreaded compression under every schedule of the bound."""
 RULE = ('drivers D1 (3 jobs, one e_end call), D2 (continue/flush/continue/end with 7-byte output), D3 (LDM + checksum, 6 jobs), D4 (overlapLog x prefix/CDict), '
-        'D5 (level changed between jobs), D6 (frame abandoned after k calls by reset or free, then a new frame), D9 (worker count changed between frames) run the real '
+        'D5 (level changed between jobs), D6 (frame abandoned after k calls by reset or free, then a new frame), D10 (abandoned, then a frame with more workers), D9 (worker count changed between frames) run the real '
         'ZSTD_compressStream2 + zstdmt + pool code with 1 KiB jobs under the deterministic scheduler; every schedule with <= P preemptions and <= D deviations is executed; '
         'oracles: terminates, frame decodes to the input (library + reference decoder, checksum), completed flush decodable, one output per subject; '
         'distinct = distinct (output, switch count); non-trivial = more than 4 thread switches')
@@ -11,7 +11,7 @@ ENG = ['engine/vsched.c']
 def run(vc, tier):
     c = vc.Check('C11', tier, 'model_checking', RULE)
     kw = dict(engine_srcs=ENG)
-    plan = [(1, 2, 3), (2, 2, 2), (3, 2, 2), (4, 1, 2), (5, 2, 2), (6, 1, 2), (9, 1, 2)] if tier == 'quick' else [(1, 3, 3), (2, 2, 3), (3, 2, 3), (4, 2, 3), (5, 2, 3), (6, 2, 2), (9, 2, 2)]
+    plan = [(2, 2, 2), (3, 2, 2), (4, 1, 2), (5, 2, 2), (9, 1, 2), (10, 1, 1), (1, 2, 3), (6, 1, 2)] if tier == 'quick' else [(2, 2, 3), (3, 2, 3), (4, 2, 3), (5, 2, 3), (9, 2, 2), (10, 1, 2), (1, 3, 3), (6, 2, 2)]
     left = len(plan)
     for drv, P, D in plan:
         c.run_vx_unit('c11-d%d' % drv, SRC, 'sched-asan', ['--driver', drv, '--P', P, '--D', D, '--exec-timeout', 20000], share=1.0 / left, **kw)
